@@ -1,6 +1,6 @@
 (* C06 — the streaming CRL reader agrees with a whole-document reference decoder.
    Property theorems only; proofs are in C06Core.v / C06Proofs.v. *)
-From Verif Require Import Base Bytes Reader Asn1Parser Pem CrlReader CrlSpec C06Core C06Proofs PemProofs.
+From Verif Require Import Base Bytes Reader Asn1Parser Pem CrlReader CrlSpec C06Core C06Proofs PemProofs C06Version.
 
 (* For every document d of the supported profile (v1 or v2, UTCTime update times, every leaf
    structure within the 80 KiB element limit and accepted by encoding/asn1; ANY number of
@@ -90,6 +90,32 @@ Theorem C06_reject_unknown_version : forall L s (v : N) rest,
   exists s', read_tbs_header L s = (Err e_version, s') /\ c_evs (core_of s') = c_evs (core_of s).
 Proof. intros L s v rest Hr Hv. exact (header_rejects_version L s (core_of s) v rest eq_refl Hr Hv). Qed.
 Print Assumptions C06_reject_unknown_version.
+
+(* ... and for WHOLE documents: take ANY CertificateList whose tbsCertList begins with a version INTEGER v >= 2
+   (one content byte: 2..255, i.e. v3, v4, ..., and -1 = 0xFF) followed by ANY bytes `rest` (in or out of the
+   profile), an outer signatureAlgorithm the library accepts, any signature.  For every pair of chunk schedules
+   ReadCRL — first pass to the outer algorithm identifier, second pass from the first byte — returns an error and
+   has handed the consumer NOTHING (no StartUpdateCrl, no entry): "unsupported version" when the algorithm is one
+   of the implemented ones, "unknown algorithm" otherwise.  Never a partial interpretation. *)
+Theorem C06_reject_unknown_version_document : forall L (v : N) rest outer_alg sig s1 s2,
+  (2 <= v)%N -> fits outer_alg -> lib_ok L KAlgId (tlv TAG_SEQ outer_alg) = true ->
+  (Z.of_nat (length (encode_crl_raw ([2; 1; v]%N ++ rest) outer_alg sig)) < two63)%Z ->
+  exists allocs,
+    read_stream L (encode_crl_raw ([2; 1; v]%N ++ rest) outer_alg sig) s1 s2 None =
+    ([], Err (match assoc (lib_alg_oid L (tlv TAG_SEQ outer_alg)) GenFacts.oid_hash_table with
+              | Some _ => e_version | None => e_alg end), allocs).
+Proof. intros L v rest outer_alg sig s1 s2 Hv Hf Hl Hs. exact (read_stream_rejects_version L v rest outer_alg sig Hv Hf Hl Hs s1 s2). Qed.
+Print Assumptions C06_reject_unknown_version_document.
+
+(* the raw encoding is the profile encoding when the content is a profile tbsCertList (so the statement above is
+   about the same documents as C06_main, with the version field altered), and its hypotheses are satisfiable: the
+   example document of C06_nonvacuous with version 2 (v3) is rejected with "unsupported version" *)
+Theorem C06_raw_is_encode : forall d, encode_crl_raw (tbs_content d) (d_outer_alg d) (d_sig d) = encode_crl d.
+Proof. reflexivity. Qed.
+Example C06_version_nonvacuous : exists allocs,
+  read_stream ex_lib (encode_crl_raw ([2; 1; 2]%N ++ skipn 3 (tbs_content ex_doc)) (d_outer_alg ex_doc) (d_sig ex_doc)) [1; 3; 2] [5; 1] None
+  = ([], Err e_version, allocs).
+Proof. eexists. vm_compute. reflexivity. Qed.
 
 (* non-vacuity: a concrete two-entry v2 document with extensions satisfies the profile *)
 Example C06_nonvacuous : exists L d number hash verifier,
